@@ -6,13 +6,16 @@ for d in sorted(glob.glob('/verif/seeded/*')):
     m=json.load(open(os.path.join(d,'meta.json')))
     name=os.path.basename(d)
     chk=m.get('checks',{})
+    fc=m.get('final_check')
+    if isinstance(fc,dict) and any(isinstance(v,dict) for v in fc.values()):
+        chk={k:v for k,v in fc.items() if isinstance(v,dict)}
     res=[]
     for p,v in chk.items():
         rule=(v.get('rules') or [''])[0]
         rule=re.sub(r'^rule=','',rule).split(' ')[0]
         res.append("%s %s @%ss%s" % (p, v.get('verdict'), int(v.get('budget_s',0)), (" `%s`"%rule) if rule else ''))
     rows.append("| %s | %s | %s | %s |" % (name, m.get('what','').replace('|','/'), m.get('needs_to_manifest','').replace('|','/'), "; ".join(res)))
-tbl="**Seeded by independent sub-agents (`/verif/seeded/`)** — confirmed: suite passes with the change, own demonstration fails with it and passes without.\n\n| id | change | needs, to manifest | quick check result |\n|---|---|---|---|\n"+"\n".join(rows)+"\n"
+tbl="**Seeded by independent sub-agents (`/verif/seeded/`)** — confirmed: suite passes with the change, own demonstration fails with it and passes without.\n\n| id | change | needs, to manifest | quick check result (final harness) |\n|---|---|---|---|\n"+"\n".join(rows)+"\n"
 hand=""
 rp='/verif/mutants/RESULTS.txt'
 if os.path.exists(rp):
